@@ -289,6 +289,56 @@ def body_internal(case):
     return labels
 
 
+def _internal_large_cases(tier):
+    import os
+
+    seed = int(os.environ.get("VERIF_SEED", "1") or "1")
+    for n in ([70001] if tier == "quick" else [70001, 2**17 + 3001, 8193, 2**20 + 4097]):
+        yield {"n": n, "version": str(1 + (seed + 1) % 3), "seed": seed}
+
+
+def body_internal_large(case):
+    """Internally generated numbers on a batch beyond the sampler's buffers: every event's z is the inverse transform
+    of a DISTINCT number of the stream the generator delivered (a chunk that re-uses earlier numbers shows as a
+    duplicate), and the explicit-u path reproduces it."""
+    n, version = case["n"], case["version"]
+    i = np.arange(n, dtype=np.float64)
+    g = GOLD
+    log_e = 6.0 + 6.0 * ((i * g + 0.21 * case["seed"]) % 1.0)
+    beta = BETA_MIN + (BETA_MAX - BETA_MIN) * ((i * g * 5 + 0.4) % 1.0)
+    # distinct, well separated numbers; the stream is longer than needed and in a scrambled order
+    m = n + 4096
+    stream = ((np.arange(m) * 0.7548776662466927 + 0.31) % 1.0) * 0.98 + 0.01
+    taus = _taus(version)
+    with scripted(stream) as rng:
+        with cut(f"Taus.tau_energy({n} events, internal generator)"):
+            try:
+                E = np.asarray(taus.tau_energy(beta, log_e), dtype=np.float64)
+            except ScriptExhausted as e:
+                raise Violation(f"the sampler drew more random numbers than one per event: {e}") from e
+        consumed = rng.stream[: rng.pos]
+    z = E / 10.0**log_e
+    rows, zaxis = otab.cdf_rows(version, log_e, beta)
+    F = otab.cdf_eval(rows, zaxis, np.clip(z, zaxis[0], zaxis[-1])) / rows[:, -1]
+    order = np.argsort(consumed)
+    cs = consumed[order]
+    j = np.clip(np.searchsorted(cs, F), 1, len(cs) - 1)
+    pick = np.where(np.abs(cs[j - 1] - F) <= np.abs(cs[j] - F), j - 1, j)
+    err = np.abs(cs[pick] - F)
+    bad = np.where(err > 1e-9)[0]
+    require(bad.size == 0, f"{bad.size} of {n} internally sampled events are not the inverse transform of any number the generator delivered (first at event {int(bad[0]) if bad.size else -1}, F(z)={F[bad[:1]].tolist()})")
+    uniq, counts = np.unique(pick, return_counts=True)
+    dup = uniq[counts > 1]
+    if dup.size:
+        ev = np.where(pick == dup[0])[0]
+        raise Violation(f"{int((counts > 1).sum())} random numbers were used for more than one event of a {n}-event batch (e.g. events {ev[:3].tolist()} all got u={cs[dup[0]]!r}): the internal generator's numbers are re-used across chunks")
+    u = consumed[order][pick]
+    with cut("Taus.tau_energy(explicit u)"):
+        E2 = np.asarray(_taus(version).tau_energy(beta, log_e, u), dtype=np.float64)
+    require(E2.tobytes() == E.tobytes(), "explicit u does not reproduce the internal generator's values on a large batch")
+    return {f"n={n}"}
+
+
 def _nt(labels):
     return bool(labels & {"mixed_angles", "cdf_node_hit", "axis_node", "N>8192"})
 
@@ -349,5 +399,14 @@ SUBCHECKS = [
         lambda labels: "valid_and_low" in labels,
         {"quick": 300, "thorough": 20000},
         doc="scripted numpy.random: every internally sampled z is the inverse transform of a distinct consumed number; explicit u reproduces it bit for bit",
+    ),
+    SubCheck(
+        "internal_large",
+        None,
+        body_internal_large,
+        lambda labels: True,
+        {"quick": 1},
+        doc="internal generator on 70001 events (more sizes in the thorough tier): each event's z is the inverse transform of a distinct delivered number; explicit u reproduces it",
+        exhaustive=_internal_large_cases,
     ),
 ]
